@@ -894,7 +894,11 @@ func (m *Model) pickReturn(ev Event) {
 	placedCh := -1
 	if res.Kind == ResPlaced {
 		ch, cn := m.chanOfConn(res.Conn)
-		if ch == nil || cn.role != rolePool {
+		if m.track && ch != nil {
+			// during a concurrent burst a pick may overlap the balancer callback that
+			// completes a refresh of its channel and still see the old connection
+			placedCh = ch.idx
+		} else if ch == nil || cn.role != rolePool {
 			m.v("C02", "placed-on-non-pool-connection", "", fmt.Sprintf("call %d placed on sc%d which is not the current connection of any channel", c.ID, res.Conn), ev.Op)
 		} else {
 			placedCh = ch.idx
